@@ -9,6 +9,7 @@ import (
 	"os"
 	"path/filepath"
 	"sort"
+	"strings"
 	"time"
 
 	"github.com/FollowTheProcess/msg"
@@ -344,6 +345,11 @@ func (a *App) handleDefault(spokfile *file.SpokFile, runner shell.Runner) error 
 // clean is the default implementation of --clean if the user has
 // not defined a clean task in the spokfile itself.
 func (a *App) clean(spokfile *file.SpokFile) error {
+	// Glob outputs are kept as patterns, find out what they currently match
+	if err := spokfile.ExpandGlobs(); err != nil {
+		return err
+	}
+
 	var toRemove []string
 	for _, task := range spokfile.Tasks {
 		// Gather up all the declared file outputs
@@ -369,11 +375,12 @@ func (a *App) clean(spokfile *file.SpokFile) error {
 			if !ok {
 				return fmt.Errorf("Named output %s is not defined", namedOutput)
 			}
-			resolved, err := filepath.Abs(actual)
-			if err != nil {
-				return err
+			// Like file outputs, a relative path is relative to the spokfile not to wherever spok was invoked from
+			resolved := actual
+			if !filepath.IsAbs(resolved) {
+				resolved = filepath.Join(spokfile.Dir, resolved)
 			}
-			_, err = os.Stat(resolved)
+			_, err := os.Stat(resolved)
 			if err != nil {
 				if !errors.Is(err, fs.ErrNotExist) {
 					// If it doesn't exist we can ignore the error
@@ -381,6 +388,23 @@ func (a *App) clean(spokfile *file.SpokFile) error {
 				}
 			}
 			toRemove = append(toRemove, resolved)
+		}
+
+		// And everything matching the glob outputs
+		for _, pattern := range task.GlobOutputs {
+			toRemove = append(toRemove, spokfile.Globs[pattern]...)
+		}
+	}
+
+	// An output that evaluates to the spokfile, the directory it lives in or anything above that
+	// (e.g. "" or "..") is a mistake in the spokfile, not something to be removed
+	for _, file := range toRemove {
+		rel, err := filepath.Rel(file, spokfile.Path)
+		if err != nil {
+			return err
+		}
+		if rel != ".." && !strings.HasPrefix(rel, ".."+string(filepath.Separator)) {
+			return fmt.Errorf("Refusing to remove %s as that would remove the spokfile, check the declared outputs", file)
 		}
 	}
 
